@@ -42,9 +42,13 @@ def main():
             p = subprocess.run(['patch', '-p1', '--no-backup-if-mismatch', '-s', '-i', os.path.join(d, 'patch.diff')], cwd=T,
                                stdout=subprocess.PIPE, stderr=subprocess.STDOUT, text=True)
             if p.returncode != 0:
-                meta['detected_by'] = {'repo_head': head, 'error': 'patch does not apply to the current /repo tree: ' + p.stdout[-300:]}
+                # a later fix: commit rewrote the lines the change touches: keep the last result, say at which head it stopped applying
+                old = meta.get('detected_by') or {}
+                old['no_longer_applies_at'] = head
+                old['no_longer_applies_note'] = 'patch.diff applies to ' + str(meta.get('confirmed_by_me', {}).get('repo_head')) + ' (where it was confirmed) but not to this head: ' + p.stdout[-200:]
+                meta['detected_by'] = old
                 json.dump(meta, open(os.path.join(d, 'meta.json'), 'w'), indent=1)
-                print(sid, 'PATCH-FAILED', flush=True)
+                print(sid, 'PATCH-FAILED (last result kept)', flush=True)
                 continue
             env = dict(os.environ, VERIF_REPO=T, VERIF_EVIDENCE_DIR=EV, VERIF_CACHE_KEEP='12')
             res = {}
